@@ -113,12 +113,13 @@ def run_lived_state(pr):
                              JUSTIFIED_INSTANCE_STATE.get(name, f"{root} objects live across assets; attribute assigned in {sorted(d['assigned_in'])}, mutated in {sorted(d['mutated_in'])}: "
                                                                 "state that may carry over from one asset (or run phase) to the next")))
     out.append(A.bvc("tree:run_lived_state", "frame", "enumeration_ran", True, "src/rp2", f"{n} attributes"))
-    te = A.func_node(pr.tree, "rp2.tax_engine._create_unfiltered_gain_and_loss_set")
-    s = ast.unparse(te) if te else ""
-    out.append(A.bvc("rp2.tax_engine._create_unfiltered_gain_and_loss_set", "frame", "each_asset_gets_a_fresh_accounting_engine",
-                     "new_accounting_engine: AccountingEngine = accounting_engine.__class__(accounting_engine.years_2_methods)" in s and
-                     "new_accounting_engine.initialize(taxable_event_iterator, acquired_lot_iterator)" in s and
-                     not [x for x in ast.walk(te) if isinstance(x, ast.Call) and isinstance(x.func, ast.Attribute) and isinstance(x.func.value, ast.Name) and x.func.value.id == "accounting_engine" and
+    TE = A.Fn(pr.tree, "rp2.tax_engine._create_unfiltered_gain_and_loss_set")
+    te = TE.node
+    shared = TE.scope.env.get("accounting_engine", "accounting_engine") if TE else "accounting_engine"
+    out.append(A.bvc(TE.qual, "frame", "each_asset_gets_a_fresh_accounting_engine",
+                     TE.has("new_accounting_engine = accounting_engine.__class__(accounting_engine.years_2_methods)") and
+                     TE.has("new_accounting_engine.initialize(taxable_event_iterator, acquired_lot_iterator)") and
+                     not [x for x in ast.walk(te) if isinstance(x, ast.Call) and isinstance(x.func, ast.Attribute) and isinstance(x.func.value, ast.Name) and x.func.value.id == shared and
                           x.func.attr not in ("__class__",)], "src/rp2/tax_engine.py"))
     # memoizing decorators on functions of run-lived modules
     memo = []
@@ -272,20 +273,19 @@ def global_state(pr):
         out.append(A.bvc(f, "frame", "mutable_class_or_module_state_is_justified", f in JUSTIFIED_STATE, "", JUSTIFIED_STATE.get(f, "not on the justified list: state that may outlive an asset or a run")))
     out.append(A.bvc("tree:global_state", "frame", "enumeration_ran", True, "src/rp2", f"{len(found)} mutated class-level/module-level values: {found}"))
     # the fix for the link map must still be in place: reset per asset
-    g = A.func_node(pr.tree, "rp2.plugin.report.rp2_full_report.Generator.__generate_asset")
-    src = ast.unparse(g) if g else ""
-    out.append(A.bvc("rp2.plugin.report.rp2_full_report.Generator.__generate_asset", "frame", "transaction_link_map_is_reset_per_asset",
-                     "self.__in_out_sheet_transaction_2_row = {}" in src, "src/rp2/plugin/report/rp2_full_report.py"))
+    GA = A.Fn(pr.tree, "rp2.plugin.report.rp2_full_report.Generator.__generate_asset")
+    out.append(A.bvc(GA.qual, "frame", "transaction_link_map_is_reset_per_asset", GA.has("self.__in_out_sheet_transaction_2_row = {}"), "src/rp2/plugin/report/rp2_full_report.py"))
     return out
 
 
 def sort_key_injective(pr):
     """sorted(set, key=_yearly_gain_loss_sort_criteria): the key must mention all four grouping fields, else ties are left in set (hash) order."""
-    f = A.func_node(pr.tree, "rp2.computed_data._yearly_gain_loss_sort_criteria")
-    src = ast.unparse(f) if f else ""
-    need = ["yearly_gain_loss.asset", "yearly_gain_loss.year", "yearly_gain_loss.is_long_term_capital_gains", "yearly_gain_loss.transaction_type"]
-    return [A.bvc("rp2.computed_data._yearly_gain_loss_sort_criteria", "effect", "sort_key_mentions_the_whole_grouping_key", all(x in src for x in need), "src/rp2/computed_data.py",
-                  "missing: " + ", ".join(x for x in need if x not in src))]
+    F = A.Fn(pr.tree, "rp2.computed_data._yearly_gain_loss_sort_criteria")
+    need = ["asset", "year", "is_long_term_capital_gains", "transaction_type"]
+    param = F.node.args.args[0].arg if F and F.node.args.args else ""
+    used = {n.attr for n in ast.walk(F.node) if isinstance(n, ast.Attribute) and isinstance(n.value, ast.Name) and n.value.id == param} if F else set()
+    return [A.bvc(F.qual, "effect", "sort_key_mentions_the_whole_grouping_key", all(x in used for x in need), "src/rp2/computed_data.py",
+                  "missing: " + ", ".join(x for x in need if x not in used))]
 
 
 from pyvc.spec import lemma as _lemma
